@@ -535,20 +535,38 @@ M("c18-twin-rename", "C18", "silent",
       "        found = set()\n        for prop_name, prop_value in self.property_items(sorted=False):\n            if hasattr(prop_value, \"params\"):\n                found.add(prop_value.params.get(\"TZID\"))\n        return found - {None}"))
 
 # ---------------------------------------------------------------- C12
-M("c12-onset-minus-offsetto", "C12", "C12/ONSET-FROM",
+M("c12-onset-minus-offsetto", "C12", "C12/ONSET-MODEL",
   (C, "            transtime - osfrom for transtime, osfrom, _, _ in transitions", "            transtime - osto for transtime, _, osto, _ in transitions"))
-M("c12-tuple-swapped", "C12", "C12/ONSET-FROM",
+M("c12-tuple-swapped", "C12", "C12/ONSET-MODEL",
   (C, "        transitions = [(transtime, offsetfrom, offsetto, tzname) for", "        transitions = [(transtime, offsetto, offsetfrom, tzname) for"))
-M("c12-offsets-swapped-at-read", "C12", "C12/ONSET-FROM",
+M("c12-offsets-swapped-at-read", "C12", "C12/ONSET-MODEL",
   (C, "        offsetfrom = component.TZOFFSETFROM\n        offsetto = component.TZOFFSETTO", "        offsetfrom = component.TZOFFSETTO\n        offsetto = component.TZOFFSETFROM"))
-M("c12-rrule-anchored-utc", "C12", "C12/ONSET-FROM",
+M("c12-rrule-anchored-utc", "C12", "C12/ONSET-MODEL",
   (C, '            tzi = dateutil.tz.tzoffset ("(offsetfrom)", offsetfrom)', '            tzi = dateutil.tz.UTC'))
-M("c12-rrule-anchored-offsetto", "C12", "C12/ONSET-FROM",
+M("c12-rrule-anchored-offsetto", "C12", "C12/ONSET-MODEL",
   (C, '            tzi = dateutil.tz.tzoffset ("(offsetfrom)", offsetfrom)', '            tzi = dateutil.tz.tzoffset ("(offsetto)", offsetto)'))
-M("c12-info-uses-osfrom", "C12", "C12/ONSET-FROM",
+M("c12-info-uses-osfrom", "C12", "C12/ONSET-MODEL",
   (C, "            transition_info.append((osto, dst_offset, name))", "            transition_info.append((osfrom, dst_offset, name))"))
-M("c12-unsorted", "C12", "C12/ONSET-FROM",
+M("c12-unsorted", "C12", "C12/ONSET-MODEL",
   (C, "        transitions.sort()\n", ""))
+M("c12-dst-from-daylight", "C12", "C12/ONSET-MODEL",
+  (C, "                for index in range(num - 1, -1, -1):\n                    if not dst[transitions[index][3]]:  # [3] is the name", "                for index in range(num - 1, -1, -1):\n                    if dst[transitions[index][3]]:  # [3] is the name"))
+M("c12-dst-uses-osfrom", "C12", "C12/ONSET-MODEL",
+  (C, "                        dst_offset = osto - transitions[index][2]  # [2] is osto  # noqa\n                        break\n                # when", "                        dst_offset = osto - transitions[index][1]  # [2] is osto  # noqa\n                        break\n                # when"))
+M("c12-standard-marked-dst", "C12", "C12/ONSET-MODEL",
+  (C, "        if component.name == 'STANDARD':\n            is_dst = 0\n        elif component.name == 'DAYLIGHT':\n            is_dst = 1", "        if component.name == 'STANDARD':\n            is_dst = 1\n        elif component.name == 'DAYLIGHT':\n            is_dst = 0"))
+M("c12-rdate-first-list-only", "C12", "C12/ONSET-MODEL",
+  (C, "            transtimes = [dtstart] + [leaf.dt for tree in rdates for\n                                      leaf in tree.dts]", "            transtimes = [dtstart] + [leaf.dt for tree in rdates[:1] for\n                                      leaf in tree.dts]"))
+M("c12-rdate-drops-dtstart", "C12", "C12/ONSET-MODEL",
+  (C, "            transtimes = [dtstart] + [leaf.dt for tree in rdates for", "            transtimes = [leaf.dt for tree in rdates for"))
+M("c12-rrule-onsets-stay-aware", "C12", "C12/ONSET-MODEL",
+  (C, "            transtimes = [dt.replace (tzinfo=None) for dt in rrule]", "            transtimes = [dt for dt in rrule]"))
+M("c12-pytz-drops-first-transition", "C12", "C12/ONSET-MODEL",
+  ("timezone/pytz.py", "            '_utc_transition_times': transition_times,\n            '_transition_info': transition_info", "            '_utc_transition_times': transition_times[1:],\n            '_transition_info': transition_info[1:]"))
+M("c12-pytz-zone-unclean-name", "C12", "C12/ONSET-MODEL",
+  ("timezone/pytz.py", "            'zone': name,", "            'zone': name.lower(),"))
+M("c12-twin-extract-round", "C12", "silent",
+  (C, "        offsetto_s = int((offsetto.seconds + 30) / 60) * 60\n        offsetto = timedelta(days=offsetto.days, seconds=offsetto_s)", "        offsetto_m = int((offsetto.seconds + 30) / 60)\n        offsetto = timedelta(days=offsetto.days, minutes=offsetto_m)"))
 M("c12-second-module-cache", "C12", "C12/HISTORY",
   (C, "_marker = []\n", "_marker = []\n_seen_tzids = {}\n"),
   (C, "            uname = name.upper()\n", "            uname = name.upper()\n            _seen_tzids[uname] = True\n"))
